@@ -15,6 +15,9 @@ type FuncResult struct {
 	Name     string
 	Obls     []*Obligation
 	Facts    []*Term
+	FactKind []string
+	FactSeq  []int
+	SupersededAt map[*Term]int
 	Err      string // outside the subset / stale contract
 	Notes    []string
 	Params   []*Term
@@ -106,7 +109,7 @@ func (e *Engine) VerifyFunction(c *Contract) (res *FuncResult) {
 	}
 	e.fnContract[fn] = c
 	e.curFunc = c.FullName()
-	e.havocCells = map[*ssa.BasicBlock]map[*Cell]bool{}
+	e.havocCells = map[*ssa.BasicBlock]map[ssa.Value]bool{}
 	e.havocHeaps = map[*ssa.BasicBlock]map[string]bool{}
 	e.havocClock = map[*ssa.BasicBlock]bool{}
 	for run := 1; run <= 12; run++ {
@@ -124,6 +127,9 @@ func (e *Engine) VerifyFunction(c *Contract) (res *FuncResult) {
 	}
 	res.Obls = e.obls
 	res.Facts = e.facts
+	res.FactKind = e.factKind
+	res.FactSeq = e.factSeq
+	res.SupersededAt = e.supersededAt
 	res.Notes = e.notes
 	res.ErrGlobals = e.errGlobals
 	return res
@@ -147,6 +153,7 @@ func (e *Engine) runOnce(c *Contract, fn *ssa.Function, res *FuncResult) {
 			v = &PtrVal{Kind: KObj, Ref: r, Typ: u.Elem()}
 			e.addGlobalFact(tb.IntCmp("<", tb.RootID(r), st.clock))
 			e.addGlobalFact(tb.IntCmp(">=", tb.RootID(r), tb.Int(0)))
+			tb.OldRefs[r] = true
 			if i == 0 && fn.Signature.Recv() != nil {
 				e.addGlobalFact(tb.Not(tb.Eq(r, tb.RefNil())))
 			}
@@ -155,6 +162,7 @@ func (e *Engine) runOnce(c *Contract, fn *ssa.Function, res *FuncResult) {
 			t := tb.Const(name, e.sortOf(p.Type()))
 			v = e.asVal(t, p.Type())
 			e.assumeWF(fr, st, t, p.Type())
+			e.markOld(t, p.Type())
 			if _, isI := p.Type().Underlying().(*types.Interface); isI && p.Type().String() != "error" {
 				// interface-typed parameters (readers, writers, ...) are assumed non-nil
 				e.addGlobalFact(tb.Not(tb.Eq(tb.Acc(t, 0), tb.Int(0))))
@@ -170,7 +178,7 @@ func (e *Engine) runOnce(c *Contract, fn *ssa.Function, res *FuncResult) {
 		if !ok {
 			unsupported("free variable %s is not a pointer", fv.Name())
 		}
-		cell := &Cell{name: fv.Name(), typ: pt.Elem()}
+		cell := &Cell{name: fv.Name(), typ: pt.Elem(), key: fv}
 		val := tb.Const("fv_"+fv.Name(), e.sortOf(pt.Elem()))
 		st.cells[cell] = val
 		e.assumeWF(fr, st, val, pt.Elem())
@@ -214,7 +222,7 @@ func (e *Engine) runOnce(c *Contract, fn *ssa.Function, res *FuncResult) {
 		cov.Name = e.curFunc + "/cover/pre"
 		cov.NFacts = nreq
 	}
-	e.obls = append(e.obls, cov)
+	e.obls = e.appendObl(cov)
 }
 
 // evalClauseAt evaluates a post clause: parameters denote entry values.
@@ -274,11 +282,14 @@ func (e *Engine) VerifyLemma(c *Contract) (res *FuncResult) {
 	for _, cl := range c.Ensures {
 		g := e.evalWrapper(fr, st, st, e.wrapperFn(c, cl), args).(*Term)
 		o := &Obligation{Name: e.curFunc + "/lemma/" + cl.Label, Kind: "lemma", Func: e.curFunc, Label: cl.Label, Cond: st.cond, Goal: g, NFacts: len(e.facts), Clause: cl, Unproved: cl.Unproved}
-		e.obls = append(e.obls, o)
+		e.obls = e.appendObl(o)
 	}
-	e.obls = append(e.obls, &Obligation{Name: e.curFunc + "/cover/pre", Kind: "cover", Func: e.curFunc, Label: "pre", Cond: tb.True(), Goal: tb.False(), NFacts: len(e.facts), Cover: true})
+	e.obls = e.appendObl(&Obligation{Name: e.curFunc + "/cover/pre", Kind: "cover", Func: e.curFunc, Label: "pre", Cond: tb.True(), Goal: tb.False(), NFacts: len(e.facts), Cover: true})
 	res.Obls = e.obls
 	res.Facts = e.facts
+	res.FactKind = e.factKind
+	res.FactSeq = e.factSeq
+	res.SupersededAt = e.supersededAt
 	res.ErrGlobals = e.errGlobals
 	res.Runs = 1
 	return res
@@ -291,7 +302,7 @@ func (e *Engine) Query(r *FuncResult, o *Obligation) []*Term {
 	if len(r.ErrGlobals) > 1 {
 		as = append(as, tb.Distinct(r.ErrGlobals...))
 	}
-	as = append(as, r.Facts[:o.NFacts]...)
+	as = append(as, e.relevantFacts(r, o)...)
 	as = append(as, o.Cond)
 	if !o.Cover {
 		as = append(as, tb.Not(e.skolemize(o.Goal)))
@@ -310,3 +321,115 @@ func (e *Engine) Query(r *FuncResult, o *Obligation) []*Term {
 }
 
 func (o *Obligation) String() string { return fmt.Sprintf("%s", o.Name) }
+
+
+// markOld records the reference parts of a parameter value as predating the run.
+func (e *Engine) markOld(t *Term, typ types.Type) {
+	tb := e.tb
+	switch u := typ.Underlying().(type) {
+	case *types.Slice:
+		tb.OldRefs[e.sBase(t)] = true
+	case *types.Basic:
+		if t.Sort == SStr {
+			tb.OldRefs[tb.Acc(t, 0)] = true
+		}
+	case *types.Interface:
+		tb.OldRefs[tb.Acc(t, 1)] = true
+	case *types.Pointer:
+		tb.OldRefs[t] = true
+	case *types.Struct:
+		for i := 0; i < u.NumFields(); i++ {
+			e.markOld(tb.Acc(t, i), u.Field(i).Type())
+		}
+	}
+}
+
+
+// relevantFacts drops quantified content facts about region versions that were superseded (re-havocked)
+// before the obligation was generated and that are not live for it: a version is live if it occurs in
+// the goal or path condition, or is connected to them through quantifier-free facts (ignoring the
+// hub symbols: parameters, initial heaps, the clock). The frame facts linking versions are always
+// kept. Dropping assumptions is sound; it can only make a proof fail, never succeed wrongly.
+func (e *Engine) relevantFacts(r *FuncResult, o *Obligation) []*Term {
+	if len(r.SupersededAt) == 0 {
+		return r.Facts[:o.NFacts]
+	}
+	isHub := func(t *Term) bool {
+		n := t.Name
+		return strings.HasPrefix(n, "p_") || strings.HasPrefix(n, "h0_") || n == "clock0" || strings.HasPrefix(n, "G_") || strings.HasPrefix(n, "fn_")
+	}
+	constsOf := func(t *Term, into map[*Term]bool) {
+		vis := map[*Term]bool{}
+		var rec func(t *Term)
+		rec = func(t *Term) {
+			if vis[t] {
+				return
+			}
+			vis[t] = true
+			if t.Op == "const" {
+				if !isHub(t) {
+					into[t] = true
+				}
+				return
+			}
+			for _, a := range t.Args {
+				rec(a)
+			}
+		}
+		rec(t)
+	}
+	live := map[*Term]bool{}
+	constsOf(o.Cond, live)
+	constsOf(o.Goal, live)
+	factConsts := make([]map[*Term]bool, o.NFacts)
+	for i, f := range r.Facts[:o.NFacts] {
+		if hasQuant(f) {
+			continue
+		}
+		factConsts[i] = map[*Term]bool{}
+		constsOf(f, factConsts[i])
+	}
+	for changed := true; changed; {
+		changed = false
+		for i := range factConsts {
+			fc := factConsts[i]
+			if fc == nil {
+				continue
+			}
+			hit := false
+			for c := range fc {
+				if live[c] {
+					hit = true
+					break
+				}
+			}
+			if hit {
+				for c := range fc {
+					if !live[c] {
+						live[c] = true
+						changed = true
+					}
+				}
+				factConsts[i] = nil
+			}
+		}
+	}
+	var out []*Term
+	for i, f := range r.Facts[:o.NFacts] {
+		if i < len(r.FactKind) && r.FactKind[i] != "hframe" && hasQuant(f) {
+			drop := false
+			cs := map[*Term]bool{}
+			constsOf(f, cs)
+			for c := range cs {
+				if at, ok := r.SupersededAt[c]; ok && at > r.FactSeq[i] && at < o.Seq && !live[c] {
+					drop = true
+				}
+			}
+			if drop {
+				continue
+			}
+		}
+		out = append(out, f)
+	}
+	return out
+}
